@@ -118,7 +118,7 @@ def real_derive(d, other, der):
     raise ValueError(kind)
 
 
-def edits_for(model):
+def edits_for(model, foreign_objects=(), foreign_properties=()):
     """Follow-up edits (one per mutator) that change a definition equal to ``model`` where possible."""
     o = model.objects
     p = model.properties
@@ -138,6 +138,19 @@ def edits_for(model):
     if p:
         out += [['remove_property', p[0]], ['rename_property', p[0], 'renp'], ['move_property', p[-1], 0]]
     out += [['remove_empty_objects'], ['remove_empty_properties'], ['union_update', [['u'], ['v'], [[1]]], False]]
+    # names the definition does not (any longer) have but one of its sources has: re-introducing them must work
+    fo = [x for x in foreign_objects if x not in o][:2]
+    fp_ = [x for x in foreign_properties if x not in p][:2]
+    for x in fo:
+        out.append(['add_object', x, list(p[:1])])
+    for x in fp_:
+        out.append(['add_property', x, list(o[:1])])
+    if fo and fp_:
+        out.append(['setitem', fo[0], fp_[0], True])
+    elif fo and p:
+        out.append(['setitem', fo[0], p[0], True])
+    elif fp_ and o:
+        out.append(['setitem', o[0], fp_[0], True])
     return out
 
 
@@ -177,7 +190,9 @@ def check_pair(ctx, src_enc, oth_enc, deep=False):
         # follow-up edits on each side
         objs = {'source': (src, src_m), 'other': (oth, oth_m), 'result': (res, want)}
         for side in ('source', 'other', 'result'):
-            for edit in edits_for(objs[side][1]):
+            foreign_o = src_m.objects + oth_m.objects
+            foreign_p = src_m.properties + oth_m.properties
+            for edit in edits_for(objs[side][1], foreign_o, foreign_p):
                 # deepcopy keeps sharing *between* the three only if copied together:
                 s2, o2, r2 = copy.deepcopy((objs['source'][0], objs['other'][0], objs['result'][0]))
                 trio = {'source': (s2, src_m), 'other': (o2, oth_m), 'result': (r2, want)}
@@ -280,7 +295,9 @@ def make_machine(ctx):
         def edit(self, data):
             i = data.draw(st.integers(0, len(self.pool) - 1))
             d, m = self.pool[i]
-            edit = data.draw(st.sampled_from(edits_for(m)))
+            others_o = [x for _, mm in self.pool for x in mm.objects]
+            others_p = [x for _, mm in self.pool for x in mm.properties]
+            edit = data.draw(st.sampled_from(edits_for(m, others_o, others_p)))
             self.log.append(['edit', i, edit])
             self.pool[i][1] = dm.step(ctx, d, m, edit, self.case(), agreement=True)
 
